@@ -55,10 +55,14 @@ def terms(tier):
     small = RED + [[], [0], (), (1,), set(), {0}, frozenset(), frozenset({"a"}), {}, {"k": None}, {1: [0]}, [(1,)], ({"a": 1},)]
     if tier == "quick":
         # depth 2: width 1 over every reduced depth-1 term, width 2 over one representative per constructor kind
+        # and over every depth-1 term built from the five smallest reduced leaves
         for v in containers(d1_red, 1, ["k", 1]):
             if v not in ([], (), set(), frozenset(), {}):
                 yield v
         for v in containers(small, 2, ["k", "é"]):
+            yield v
+        d1_tiny = list(containers(RED[:5], 2, ["k", 1]))
+        for v in containers(RED[:3] + d1_tiny, 2, ["k"]):
             yield v
     else:
         for v in containers(RED + d1_red, 2, ["k", "é", 1]):
